@@ -6,6 +6,22 @@ import os
 ROOT = os.path.dirname(os.path.dirname(os.path.abspath(__file__)))
 
 CHECKS = {
+    'C01': dict(
+        category='exploration', design_ref='DESIGN.md 4/C01',
+        technique='runtime monitor: generated programs run through the real compile+SQLite pipeline, rows compared with an independent reference evaluator',
+        text=('Every predicate of every generated core-fragment program is compiled by the real pipeline (same calls as '
+              '`logica.py run`), executed on SQLite and its rows + column names compared as a multiset with an independent '
+              'reference evaluator written from the documentation; reach counters (injections, UNION ALL, un-memoized compiles) '
+              'are mandatory. Held on the programs generated, not a proof.'),
+        note='trusted: reference evaluator (DESIGN 4.21), SQLite 3.40; fragment excludes / %, floats, composite equality'),
+    'C14': dict(
+        category='exploration', design_ref='DESIGN.md 4/C14',
+        technique='runtime trace monitor: start events recorded at the sql_runner boundary checked offline against a trace specification; icontract post-conditions on the scheduler state; stop-signal fault injection',
+        text=('The real Concertina scheduler is run on generated and exhaustively enumerated small configurations with a recording '
+              'sql_runner; the start trace is checked against an independent trace specification (inputs first, exactly-once, declared '
+              'order and repetitions, stop-signal tolerance, logical termination bound); scheduler-state post-conditions are evaluated '
+              'after every RunOneAction.'),
+        note='trusted: the trace specification in vf/ref/sched_spec.py; configurations limited to the shapes the compiler emits'),
     'C16': dict(
         category='exploration', design_ref='DESIGN.md 4/C16',
         technique='runtime monitor: reference-model oracle (term meet) over every observed Unify, exhaustive pair enumeration',
